@@ -179,3 +179,7 @@ func init() {
 func init() {
 	prop("C01", "C20-R1") // a page that is older than its NewTablePage record must be formatted, redo must not apply a record twice
 }
+
+func init() {
+	prop("C12", "C12-R6")
+}
